@@ -189,7 +189,8 @@ func (g *gen) step() {
 			pid = c.nextPid
 		}
 		t := nameVocab[r.Intn(len(nameVocab))]
-		pkt := mq.Publish(t, g.payload(), q, r.Chance(25), false, pid)
+		// DUP on a packet the broker sees for the first time: the retransmission of a PUBLISH that got lost
+		pkt := mq.Publish(t, g.payload(), q, r.Chance(25), q > 0 && r.Chance(12), pid)
 		if q == 2 {
 			c.pending2 = append(c.pending2, pid)
 		}
@@ -213,6 +214,11 @@ func (g *gen) step() {
 				b = append(b, mq.Ack(mq.PUBREL, pid)...)
 			}
 			g.evs = append(g.evs, evBytes(c.id, b))
+			if r.Chance(12) {
+				// a late retransmission (DUP) after the exchange was released: a new exchange with that identifier
+				g.evs = append(g.evs, evBytes(c.id, mq.Publish("a/b", []byte("late dup"), 2, false, true, pid)))
+				c.pending2 = append(c.pending2, pid)
+			}
 		}
 	case k < 77: // acknowledgements a subscriber sends
 		ty := []int{mq.PUBACK, mq.PUBREC, mq.PUBCOMP}[r.Intn(3)]
